@@ -361,7 +361,9 @@ def run_property(prop, tier, builders, seed=0, replay_fn=None, known=None, level
     for kb in kbs:
         for name, ok, detail in kb.static_facts:
             static.append({"fact": name, "holds": ok, "detail": detail})
-            if not ok:
+            if ok is None:  # the scan could not decide (unknown code shape): never a violation
+                undecided.append("static fact undecided: %s (%s)" % (name, detail[:300]))
+            elif not ok:
                 violations.append((kb, None, None, "P", "static:" + name, detail))
 
     # known findings / violations
